@@ -130,25 +130,43 @@ Proof.
   eapply low_same_trans; [apply fold_drop_cons_q0; exact Hc|]. apply drop_tx_q0. exact Hr.
 Qed.
 
-Lemma notify_slot_keep s rep cons c o c' :
-  notify_slot s rep cons c = (o, c') -> slot_ok s ->
+Lemma notify_slot_gen_keep b s rep cons c o c' :
+  notify_slot_gen b s rep cons c = (o, c') -> slot_ok s ->
   keep c c' /\ c_slots c' = c_slots c /\ forall site, o <> OPanic site.
 Proof.
-  intros H Hok. pose proof Hok as [(Hr & Hc & _) _]. unfold notify_slot in H.
-  destruct (send (s_reply s) rep c) as [o1 c1] eqn:E1.
-  pose proof (send_keep E1 Hr) as K1. pose proof (send_slots E1) as S1.
-  pose proof (send_no_panic E1) as N1.
+  intros H Hok. pose proof Hok as [(Hr & Hc & _) _]. unfold notify_slot_gen in H.
   assert (Hdrop : forall cx, keep cx (set_qs cx (drop_slot_qs s (c_qs cx)))).
   { intro cx. apply mk_keep; try reflexivity. cbn. apply drop_slot_qs_q0. exact Hok. }
-  destruct o1.
-  - destruct (send_all (s_consumers s) cons c1) as [o2 c2] eqn:E2.
-    destruct (send_all_keep E2 Hc) as (K2 & S2 & N2).
-    assert (K : keep c (set_qs c2 (drop_slot_qs s (c_qs c2)))).
-    { eapply keep_trans; [exact K1|]. eapply keep_trans; [exact K2|]. apply Hdrop. }
-    destruct o2; inversion H; subst; (split; [exact K | split; [cbn; congruence | first [discriminate | exact N2]]]).
-  - inversion H; subst. split; [eapply keep_trans; [exact K1 | apply Hdrop] | split; [cbn; exact S1 | exact N1]].
-  - inversion H; subst. split; [eapply keep_trans; [exact K1 | apply Hdrop] | split; [cbn; exact S1 | exact N1]].
+  destruct b.
+  - destruct (send_all (s_consumers s) cons c) as [o1 c1] eqn:E1.
+    destruct (send_all_keep E1 Hc) as (K1 & S1 & N1).
+    destruct o1.
+    + destruct (send (s_reply s) rep c1) as [o2 c2] eqn:E2.
+      pose proof (send_keep E2 Hr) as K2. pose proof (send_slots E2) as S2.
+      pose proof (send_no_panic E2) as N2.
+      inversion H; subst o c'. cbn [fst snd].
+      split; [eapply keep_trans; [exact K1|]; eapply keep_trans; [exact K2|]; apply Hdrop|].
+      split; [cbn; congruence|exact N2].
+    + inversion H; subst o c'. cbn [fst snd].
+      split; [eapply keep_trans; [exact K1 | apply Hdrop] | split; [cbn; exact S1 | exact N1]].
+    + inversion H; subst o c'. cbn [fst snd].
+      split; [eapply keep_trans; [exact K1 | apply Hdrop] | split; [cbn; exact S1 | exact N1]].
+  - destruct (send (s_reply s) rep c) as [o1 c1] eqn:E1.
+    pose proof (send_keep E1 Hr) as K1. pose proof (send_slots E1) as S1.
+    pose proof (send_no_panic E1) as N1.
+    destruct o1.
+    + destruct (send_all (s_consumers s) cons c1) as [o2 c2] eqn:E2.
+      destruct (send_all_keep E2 Hc) as (K2 & S2 & N2).
+      inversion H; subst o c'. cbn [fst snd].
+      split; [eapply keep_trans; [exact K1|]; eapply keep_trans; [exact K2|]; apply Hdrop|].
+      split; [cbn; congruence|exact N2].
+    + inversion H; subst o c'. cbn [fst snd].
+      split; [eapply keep_trans; [exact K1 | apply Hdrop] | split; [cbn; exact S1 | exact N1]].
+    + inversion H; subst o c'. cbn [fst snd].
+      split; [eapply keep_trans; [exact K1 | apply Hdrop] | split; [cbn; exact S1 | exact N1]].
 Qed.
+Definition notify_slot_keep s rep cons c o c' := @notify_slot_gen_keep true s rep cons c o c'.
+Definition notify_slot_cf_keep s rep cons c o c' := @notify_slot_gen_keep false s rep cons c o c'.
 
 Lemma fold_drop_slots_q0 (ss : list (N * slot)) : forall m,
   (forall n s, In (n, s) ss -> slot_ok s) ->
@@ -436,7 +454,7 @@ Proof.
   - (* channel close-ok *)
     destruct (alookup n (c_slots c)) as [sl|] eqn:Hl; [|inversion H; subst; split; [discriminate|exact W]].
     pose proof (all_slots_lookup (w_slots W) Hl) as Hok.
-    destruct (notify_slot_keep H Hok) as (K & S & Np).
+    destruct (notify_slot_cf_keep H Hok) as (K & S & Np).
     split; [exact Np|].
     eapply keep_WFs; [apply WFs_remove_slot; exact W | exact K |].
     eapply all_slots_eq; [exact S|]. apply all_slots_remove. exact (w_slots W).
@@ -476,32 +494,29 @@ Proof.
     destruct (alookup n (c_slots c)) as [sl|] eqn:Hl; [|inversion H; subst; split; [discriminate|exact W]].
     pose proof (all_slots_lookup (w_slots W) Hl) as Hok.
     assert (Hr : 2 <= s_reply sl) by (destruct Hok as [(Hr & _) _]; exact Hr).
-    destruct (send (s_reply sl) _ _) as [o1 c1] eqn:E.
-    pose proof (send_keep E Hr) as K1. pose proof (send_slots E) as S1. pose proof (send_no_panic E) as N1.
-    assert (W1 : WFs c1).
-    { eapply keep_WFs; [exact W | eapply keep_trans; [|exact K1]; apply mk_keep; try reflexivity |].
-      eapply all_slots_eq; [exact S1|].
+    remember (set_slot c n (with_consumers sl (remove_tag tag (s_consumers sl)))) as c0 eqn:Ec0.
+    assert (W0 : WFs c0).
+    { subst c0. eapply keep_WFs; [exact W | apply mk_keep; try reflexivity |].
       apply all_slots_set; [exact (w_slots W)|apply slot_ok_remove_tag; exact Hok]. }
-    destruct o1.
-    + destruct (lookup_tag tag (s_consumers sl)) as [q|] eqn:Et.
-      * destruct (lookup_tag_In Et) as (t & Hin).
-        assert (Hq : 2 <= q) by (destruct Hok as [(_ & Hc & _) _]; eapply Hc; exact Hin).
-        destruct (send q IClientCancelled c1) as [o2 c2] eqn:E2.
-        inversion H; subst. split; [eapply send_no_panic; exact E2|].
-        eapply keep_WFs; [exact W1 | eapply keep_trans; [eapply send_keep; [exact E2|exact Hq]|] |].
-        -- apply mk_keep; try reflexivity. cbn. apply drop_tx_q0; exact Hq.
-        -- eapply all_slots_eq; [cbn; eapply send_slots; exact E2|]. exact (w_slots W1).
-      * inversion H; subst. split; [discriminate|]. exact W1.
-    + inversion H; subst. split; [discriminate|].
-      eapply keep_WFs; [exact W1 | apply mk_keep; try reflexivity; cbn | exact (w_slots W1)].
-      destruct (lookup_tag tag (s_consumers sl)) as [q|] eqn:Et; [|reflexivity].
-      destruct (lookup_tag_In Et) as (t & Hin). apply drop_tx_q0.
-      destruct Hok as [(_ & Hc & _) _]; eapply Hc; exact Hin.
-    + inversion H; subst. split; [exact N1|].
-      eapply keep_WFs; [exact W1 | apply mk_keep; try reflexivity; cbn | exact (w_slots W1)].
-      destruct (lookup_tag tag (s_consumers sl)) as [q|] eqn:Et; [|reflexivity].
-      destruct (lookup_tag_In Et) as (t & Hin). apply drop_tx_q0.
-      destruct Hok as [(_ & Hc & _) _]; eapply Hc; exact Hin.
+    destruct (lookup_tag tag (s_consumers sl)) as [q|] eqn:Et.
+    + destruct (lookup_tag_In Et) as (t & Hin).
+      assert (Hq : 2 <= q) by (destruct Hok as [(_ & Hc & _) _]; eapply Hc; exact Hin).
+      destruct (send q IClientCancelled c0) as [o1 c1] eqn:E1.
+      assert (W1 : WFs (set_qs c1 (drop_tx q (c_qs c1)))).
+      { eapply keep_WFs; [exact W0 | eapply keep_trans; [eapply send_keep; [exact E1|exact Hq]|] |].
+        - apply mk_keep; try reflexivity. cbn. apply drop_tx_q0; exact Hq.
+        - eapply all_slots_eq; [cbn; eapply send_slots; exact E1|]. exact (w_slots W0). }
+      destruct o1.
+      * destruct (send (s_reply sl) _ _) as [o2 c2] eqn:E2. inversion H; subst o c'.
+        split; [eapply send_no_panic; exact E2|].
+        eapply keep_WFs; [exact W1 | eapply send_keep; [exact E2|exact Hr] |].
+        eapply all_slots_eq; [eapply send_slots; exact E2|]. exact (w_slots W1).
+      * inversion H; subst o c'. split; [discriminate|exact W1].
+      * inversion H; subst o c'. split; [eapply send_no_panic; exact E1|exact W1].
+    + destruct (send (s_reply sl) _ _) as [o2 c2] eqn:E2. inversion H; subst o c'.
+      split; [eapply send_no_panic; exact E2|].
+      eapply keep_WFs; [exact W0 | eapply send_keep; [exact E2|exact Hr] |].
+      eapply all_slots_eq; [eapply send_slots; exact E2|]. exact (w_slots W0).
   - destruct (alookup n (c_slots c)) as [sl|] eqn:Hl; [|inversion H; subst; split; [discriminate|exact W]].
     eapply collect_WFs; eassumption.
   - destruct (alookup n (c_slots c)) as [sl|] eqn:Hl; [|inversion H; subst; split; [discriminate|exact W]].
